@@ -6,7 +6,7 @@ from rpyc.lib import spawn
 from rpyc.lib.colls import WeakValueDict
 from rpyc.lib.compat import callable
 from rpyc.core.consts import HANDLE_BUFFITER, HANDLE_CALL
-from rpyc.core.netref import syncreq, asyncreq
+from rpyc.core.netref import syncreq, asyncreq, BaseNetref
 
 
 def buffiter(obj, chunk=10, max_chunk=1000, factor=2):
@@ -36,6 +36,11 @@ def buffiter(obj, chunk=10, max_chunk=1000, factor=2):
     if factor < 1:
         raise ValueError("factor must be >= 1, got %r" % (factor,))
     it = iter(obj)
+    if not isinstance(it, BaseNetref):
+        # iterable only through __getitem__ (or not remote at all): iter() made a local iterator, nothing to buffer
+        for elem in it:
+            yield elem
+        return
     count = chunk
     while True:
         items = syncreq(it, HANDLE_BUFFITER, count)
